@@ -158,16 +158,22 @@ def build_harness():
     return round(time.time() - t0, 1)
 
 
+def _limits():
+    # a runaway loop in the code under test (e.g. an iterator that never ends) must fail fast
+    import resource
+    resource.setrlimit(resource.RLIMIT_AS, (8 << 30, 8 << 30))
+
+
 def kh_replay(files, timeout=1800):
     p = subprocess.run(["timeout", str(timeout), KH, "replay"] + list(files), stdout=subprocess.PIPE,
-                       stderr=subprocess.PIPE, text=True)
-    if p.returncode < 0 or p.returncode in (132, 134, 135, 136, 139):
+                       stderr=subprocess.PIPE, text=True, preexec_fn=_limits)
+    if p.returncode < 0 or p.returncode in (101, 124, 132, 134, 135, 136, 137, 139):
         # the process died on a signal inside the code under test (e.g. SIGSEGV after an out-of-bounds
         # slice was produced): find the record it died on and report it as an observation
         e = dict(os.environ)
         e["KH_PROGRESS"] = "1"
         q = subprocess.run(["timeout", str(timeout), KH, "replay"] + list(files), stdout=subprocess.PIPE,
-                           stderr=subprocess.PIPE, text=True, env=e)
+                           stderr=subprocess.PIPE, text=True, env=e, preexec_fn=_limits)
         last = [l for l in q.stderr.splitlines() if l.startswith("KH-LINE ")]
         if not last:
             raise ToolError("kh replay died (rc=%s) and the record could not be located" % p.returncode)
@@ -187,7 +193,7 @@ def kh_replay(files, timeout=1800):
 
 def kh_record(module, seed, n_events, out, timeout=600):
     p = subprocess.run(["timeout", str(timeout), KH, "record", module, str(seed), str(n_events), out],
-                       stdout=subprocess.PIPE, stderr=subprocess.PIPE, text=True)
+                       stdout=subprocess.PIPE, stderr=subprocess.PIPE, text=True, preexec_fn=_limits)
     if p.returncode != 0:
         raise ToolError("kh record %s failed rc=%s: %s" % (module, p.returncode, tail(p.stderr, 30)))
 
